@@ -74,7 +74,7 @@ func (s *BarGraph) WriteBar(idx int, key string, vals ...int64) {
 
 	s.rows[idx] = barGraphPair{
 		name: key,
-		vals: vals,
+		vals: append([]int64(nil), vals...), // callers hand in slices that alias live counters
 	}
 
 	// Compute the updated max
@@ -127,12 +127,6 @@ func (s *BarGraph) writeBar(idx int, key string, vals ...int64) {
 }
 
 func (s *BarGraph) writeBarGrouped(idx int, key string, vals ...int64) {
-	for _, val := range vals {
-		if val > s.maxLineVal {
-			s.maxLineVal = val
-		}
-	}
-
 	var sb strings.Builder
 	sb.WriteString(color.Wrapf(color.Yellow, "%-[2]*[1]s", key, s.maxKeyLength))
 	sb.WriteString("  ")
@@ -162,10 +156,6 @@ func (s *BarGraph) writeBarStacked(idx int, key string, vals ...int64) {
 	var total int64
 	for _, val := range vals {
 		total += val
-	}
-
-	if total > s.maxLineVal {
-		s.maxLineVal = total
 	}
 
 	var sb strings.Builder
